@@ -559,7 +559,7 @@ class Run(object):
                 return ClassV(r[1].name + "." + r[2])
             if r[0] == "const":
                 return self.lift_const(st, r[1])
-        if n in ("len", "range", "enumerate", "isinstance", "int", "str", "print", "type", "list", "sorted", "min", "max", "bool", "reversed", "getattr", "open"):
+        if n in ("len", "range", "enumerate", "zip", "isinstance", "int", "str", "print", "type", "list", "sorted", "min", "max", "bool", "reversed", "getattr", "open"):
             return FuncV("builtins." + n)
         if self.spec_mode and (n in self.engine.spec_funcs or n in self.engine.homs):
             return FuncV("spec." + n)
@@ -1235,7 +1235,27 @@ class Run(object):
         val = st.cells[src.cell][0]
         parts = self.static_elems(val) if val is not None else []
         if parts is None:
-            raise Unsupported("comprehension over list of unknown length")
+            # a map over a list of unknown length (no filter): a fresh sequence of the same length whose k-th element is the
+            # element expression at the k-th source element
+            if g.ifs:
+                raise Unsupported("filtering comprehension over a list of unknown length")
+            kv = Const("k!q%d" % next(_counter), INT)
+            saved = st.env.get(g.target.id)
+            st.env[g.target.id] = self.wrap_elem(st, Nth(val, kv), src.elem)
+            try:
+                ev = self.ev(node.elt, st)
+            finally:
+                if saved is None:
+                    st.env.pop(g.target.id, None)
+                else:
+                    st.env[g.target.id] = saved
+            er = self.raw(st, ev)
+            if "!q" in str(er) and not isinstance(er, T):
+                raise Unsupported("comprehension element")
+            r = self.fresh("comp", Seq(er.sort))
+            st.assume(Eq(Len(r), Len(val)))
+            st.assume(T("#forall", (kv, And(Le(I(0), kv), Lt(kv, Len(val))), Eq(Nth(r, kv), er)), BOOL))
+            return ListV(self.new_cell(st, r), self.type_of(st, ev))
         out = []
         saved = st.env.get(g.target.id)
         for p in parts:
@@ -1461,6 +1481,12 @@ class Run(object):
                 n = Ite(Gt(lo, hi), Sub(lo, hi), I(0))
                 return IterV(n, lambda st2, i: Sub(lo, i))
             raise Unsupported("range step %d" % step)
+        if name == "zip" and len(args) >= 2:
+            its = [self.to_iter(st, a) for a in args]
+            n = its[0].len
+            for it in its[1:]:
+                n = tm.Min(n, it.len)
+            return IterV(n, lambda st2, i, its=its: TupleV([it.elem(st2, i) for it in its]), None)
         if name == "enumerate":
             it = self.to_iter(st, args[0])
             return IterV(it.len, lambda st2, i: TupleV([i, it.elem(st2, i)]), it.seq)
@@ -1501,6 +1527,8 @@ class Run(object):
             if isinstance(a, ObjV):
                 return TupleV([S("#typeof"), a.term])
             raise Unsupported("type() of %r" % (a,))
+        if name == "reversed" and len(args) == 1:
+            return self.reversed_value(st, args[0])
         raise Unsupported("builtin " + name)
 
     def to_iter(self, st, v):
